@@ -27,7 +27,7 @@ TECHNIQUE = ('Hypothesis property-based testing: typed expression-tree '
              'reference interpreter of the documented algebra table; '
              'descriptor replay')
 LEVEL_TEXT = ('Generated-program search: random well-typed expression trees '
-              '(depth <= 4) over 35 leaf kinds and every arithmetic overload '
+              '(depth <= 4) over 33 leaf kinds and every arithmetic overload '
               '/ expression-class constructor, on real, complex, weighted, '
               'discretized and float32 spaces; each tree is evaluated '
               'out-of-place and in-place at several points and compared with '
@@ -277,6 +277,13 @@ def _call_guard(env, root, x, fn, inplace, strict=True):
                 type(e).__name__, str(e)[:300], _pattern(b), _pattern(root)))
 
 
+def _modsite(b):
+    """Key of an expression whose evaluation changed its argument: class and
+    classes of its operands."""
+    return '{}({})'.format(_cls(b.obj), ','.join(
+        '0' if k is None else _cls(k.obj) for k in b.kids))
+
+
 def _region(env, node):
     di, ri = env.info(node['dom']), env.info(node['ran'])
     return '{}->{}|{}'.format(di.cat, ri.cat,
@@ -476,8 +483,10 @@ def run_case(desc):
         def fail(kind, got, err):
             culprit = _localise(env, root, x, depth,
                                 inplace=(kind == 'value-inplace'))
+            site = _site(culprit) if kind == 'value' else \
+                _cls(culprit.obj) + '._call(out)'
             raise Violation(
-                'C04|{}|{}|{}'.format(kind, _site(culprit),
+                'C04|{}|{}|{}'.format(kind, site,
                                       _region(env, culprit.node)),
                 'point {}: max error {:.3g} > tol {:.3g}; got {!r} '
                 'reference {!r}; culprit {} inside {}'.format(
@@ -492,7 +501,7 @@ def run_case(desc):
             fail('value', got, err)
         if ex.vmaxabs(ex.vsub(ex.to_np(xe, env.set(dom)), x_before)) != 0:
             raise Violation('C04|input-modified|{}|{}'.format(
-                _site(root), reg), 'out-of-place evaluation changed x')
+                _modsite(root), reg), 'out-of-place evaluation changed x')
         if ran_is_space:
             out = env.set(ran).element()
             _fill_nan(out)
@@ -513,7 +522,7 @@ def run_case(desc):
         # the evaluation point is immutable
         if ex.vmaxabs(ex.vsub(ex.to_np(xe, env.set(dom)), x_before)) != 0:
             raise Violation('C04|input-modified|{}|{}'.format(
-                _site(root), reg), 'in-place evaluation changed x')
+                _modsite(root), reg), 'in-place evaluation changed x')
 
     # ---- is_linear => numerically linear ------------------------------------
     if expr.is_linear and len(pts) >= 2 and statuses[0] == statuses[1] == 'ok':
